@@ -140,9 +140,10 @@ def run_core(prop, tier, seed, t0, cfgname='TraceCore.cfg'):
         tags = set()
         for v in vs:
             tags |= set(v['prop'].split())
-        pid = prop if (prop in tags or not tags) else sorted(tags)[0]
-        path = replay_file(pid, sid, ops, vs)
-        out_lines.append('VIOLATION property=%s replay=%s' % (pid, path))
+        # the line always names the property whose check is running (the mismatching fields and the
+        # properties they belong to are in the replay file)
+        path = replay_file(prop, sid, ops, vs, 'fields belong to: %s' % ' '.join(sorted(tags)))
+        out_lines.append('VIOLATION property=%s replay=%s' % (prop, path))
         nviol += 1
     for kid, (k, sid) in known_hits.items():
         print('KNOWN-FINDING: property=%s %s (%s; e.g. segment %s)' % (prop, k['id'], k['what'], sid))
